@@ -188,6 +188,7 @@ def allocator_obligations(ck, tm, R=lambda r: r):
         ck.floor(R("R11.1"), "%s/accepting-paths" % an, nret, 1, tm.target)
         ck.floor(R("R11.2"), "%s/rejecting-paths" % an, nrej, 1, tm.target)
         ck.floor(R("R11.3"), "%s/diverging-paths" % an, ndiv, 1, tm.target)
+    mapping_request_obligations(ck, R("R11.1"), tm)
     return bound_strict
 
 
